@@ -492,4 +492,219 @@ CHECKS = {
                      "inference",
         "design_ref": "DESIGN.md section 6, C13",
     },
+    "C07": {
+        "bin": "c07",
+        "level": "exploration",
+        "quick": {"shards": 12, "budget_s": 60, "min_evaluations": 500},
+        "thorough": {"shards": 14, "budget_s": 900, "min_evaluations": 10000},
+        "rule": (
+            "(a) toy aggregate whose state is the append-only list of "
+            "unique ids on the bare AggregateStore: 2-8 OS threads x 3-10 "
+            "operations (append / rejected / no-op / pre-save-failure / "
+            "read / snapshot) on 1-3 entities, through one or two store "
+            "instances over the same storage, disk and memory back-ends, "
+            "history cache on/off, verif yield hook (seeded per-thread "
+            "sleeps/yields at lock acquisition, between locks, before/"
+            "after the command store, before the cache update; hot-site "
+            "mode in alternate histories). Every acknowledgement and read "
+            "is recorded at the client boundary; the checker verifies: "
+            "each acknowledged id exactly once in the final list, each "
+            "returned state ends with the own id and is a prefix of the "
+            "final order, no version acknowledged twice, versions never go "
+            "backwards for a client, final version = 1 + accepted + "
+            "rejected, no trace of no-ops and pre-save failures, stored "
+            "command keys contiguous, history API lists every command in "
+            "order with its actor and the right number of error records, a "
+            "fresh store instance and the second instance load the same "
+            "state. (b) real CertAuth + publication WAL through the "
+            "managers: 3-6 threads issuing ROA deltas with unique prefixes, "
+            "rejected deltas and reads against two CAs, then the same "
+            "counting/ordering rules, the history API, and a relying-party "
+            "walk after catch-up. evaluations = entities checked per "
+            "history; distinct_nontrivial = distinct orders in which the "
+            "threads entered the critical section with at least two "
+            "switches between threads."
+        ),
+        "assumptions": COMMON_ASSUMPTIONS + [
+            "interleavings are those the OS scheduler produces under the "
+            "seeded perturbation; they are sampled, not enumerated",
+            "Miri and ThreadSanitizer runs of this workload are not part "
+            "of the registered commands (see DESIGN.md, sanitizer layer)",
+        ],
+        "level_text": (
+            "Runtime monitoring of real multi-threaded executions of the "
+            "store code with an offline history checker made unambiguous "
+            "by unique ids (a read identifies exactly the commands it saw). "
+            "Many short histories; schedule diversity from the yield hook "
+            "and reported as distinct critical-section orders."
+        ),
+        "level_note": (
+            "Trusted: the harness' toy aggregate and its client-side log "
+            "(mutex-protected, appended after the call returns)."
+        ),
+        "technique": "runtime monitoring: client-boundary history recording "
+                     "+ prefix/version/exactly-once checker under schedule "
+                     "perturbation",
+        "design_ref": "DESIGN.md section 4, C07",
+    },
+    "C12": {
+        "bin": "c12",
+        "level": "exploration",
+        "quick": {"shards": 12, "budget_s": 150, "min_evaluations": 15000},
+        "thorough": {"shards": 12, "budget_s": 400, "min_evaluations": 150000},
+        "rule": (
+            "evaluations = signed protocol messages handed to CaManager::"
+            "rfc6492 / RepositoryManager::rfc8181 and judged: the complete "
+            "combination table (1053 cases in both tiers: signing-key class "
+            "{current, other child's/publisher's, replaced, replaced-older, "
+            "random, expired CMS under the current key, forged issuer "
+            "(EE cert + CRL name the registered key, signed by an attacker)} "
+            "x claimed sender {kid1, kid2, unregistered} x recipient {top, "
+            "top2; one repository} x request kind (10 provisioning kinds: "
+            "list, list with foreign recipient field, issue without limit / "
+            "subset limit / limit partly outside / unknown class / for the "
+            "key certified to the other child, revoke other child's key, "
+            "revoke own key, reissue; 7 publication kinds: list, publish "
+            "inside base, update, publish in the other publisher's base, "
+            "other host, withdraw other publisher's object, withdraw own) x "
+            "{before, after ca_update_id + child id update + publisher "
+            "re-registration}) plus single-bit corruptions (quick: 4 "
+            "messages, every bit of signerInfo incl. signed attributes and "
+            "signature, every 8th bit elsewhere; thorough: every bit of 12 "
+            "messages). distinct_nontrivial = distinct cells (protocol, "
+            "phase, key class, claimed sender, recipient, kind) + distinct "
+            "(protocol, DER region) flipped."
+        ),
+        "assumptions": COMMON_ASSUMPTIONS + [
+            "the harness plays remote children/publishers with its own "
+            "KrillSigner; krill-as-client validation of remote replies is "
+            "not exercised",
+            "replay of an unmodified valid message inside its validity "
+            "window and the recipient field of an rfc6492 message (krill "
+            "does not compare it with the addressed CA; counted, not "
+            "judged) are outside the statement",
+            "the publication server has no identity update operation; a "
+            "publisher's identity is replaced by remove + create",
+            "a corrupted message is tolerated only when it re-decodes to "
+            "the identical XML and validates under the registered key",
+        ],
+        "level_text": (
+            "Runtime monitoring, bounded-exhaustive: the real rfc6492 / "
+            "rfc8181 entry points receive harness-signed CMS for every cell "
+            "of the key x sender x recipient x kind x phase table and every "
+            "selected single-bit corruption; a registration model kept by "
+            "the harness predicts authentic/unauthentic, and replies, full "
+            "state snapshots and the child status store are compared "
+            "before/after every request."
+        ),
+        "level_note": (
+            "Trusted: rpki-rs CMS/XML decoding and validation used to judge "
+            "replies and accepted corruptions; openssl; the harness' DER "
+            "region walker (only labels regions)."
+        ),
+        "technique": "runtime monitoring: registration-model oracle over an "
+                     "exhaustive identity/sender/recipient/request table + "
+                     "exhaustive single-bit corruption of signed messages",
+        "design_ref": "DESIGN.md section 6, C12",
+    },
+    "C15": {
+        "bin": "c15",
+        "level": "exploration",
+        "quick": {"shards": 12, "budget_s": 65, "min_evaluations": 3000},
+        "thorough": {"shards": 14, "budget_s": 600, "min_evaluations": 40000},
+        "rule": (
+            "evaluations = hostile messages judged (to the proxy and to the "
+            "signer) plus the oracle evaluations of every honest exchange "
+            "(nonce, one response per child request, responses held for the "
+            "right child, delivery counts from the proxy's command log, "
+            "proxy objects = accepted response = published files, manifest/"
+            "CRL numbers). A case is distinct and non-trivial as the cell "
+            "(message class, world state idle/open/processed) whose message "
+            "reached krill's own checks; 35 response classes and 20 request "
+            "classes x 3 states + the second-make-request cell + accepted "
+            "honest/positive-control deliveries = 165 cells."
+        ),
+        "assumptions": COMMON_ASSUMPTIONS + [
+            "proxy-only krill instance + external TrustAnchorSignerManager "
+            "(own storage) through public API; a second proxy/signer pair and "
+            "an impostor signer provide cross-wired messages",
+            "'refused without change' is judged on the aggregate state "
+            "without the command counter: krill stores a refused command "
+            "with its error and increments the version by design",
+            "a replayed request validly signed by the associated proxy is "
+            "processed again by the signer (it keeps no nonce memory); the "
+            "statement only demands the proxy's signature",
+            "overrides are generated in [current+1, current+40]; u64::MAX "
+            "(after which the number wraps to 0) only with "
+            "--boundary-override 1, not in the registered commands",
+        ],
+        "level_text": (
+            "Runtime monitoring: the real proxy aggregate, signer aggregate "
+            "and signer manager process generated honest exchanges and the "
+            "full matrix of replayed, stale, re-ordered, cross-wired, "
+            "modified and forged messages in every world state; acceptance of "
+            "a hostile message, any state/publication change after a refusal, "
+            "response or delivery counts other than one, and non-increasing "
+            "manifest/CRL numbers are reported."
+        ),
+        "level_note": (
+            "Trusted: rpki-rs CMS/manifest/CRL decoding; the scheduler "
+            "stand-in; delivery counts are read from the proxy's stored "
+            "command log."
+        ),
+        "technique": "runtime monitoring: hostile message matrix x world "
+                     "states + model-based accounting of child responses",
+        "design_ref": "DESIGN.md section 6, C15",
+    },
+    "C20": {
+        "bin": "c20",
+        "level": "exploration",
+        "quick": {"shards": 12, "budget_s": 90, "min_evaluations": 120000},
+        "thorough": {"shards": 12, "budget_s": 600, "min_evaluations": 900000},
+        "rule": (
+            "evaluations = credentials judged (credential x transport x "
+            "provider chain: identity fingerprint of 2-5 requests + recorded "
+            "actor) + login attempts judged + end-of-run effect checks. Per "
+            "pass 8 real-daemon runs on one data directory: 7 provider "
+            "chains (admin token only / config file + admin token, Unix map "
+            "root, nobody, both, none) + one restart with a user removed and "
+            "one demoted; a second instance supplies foreign tokens. Inputs: "
+            "every truncation and single-bit flip of two issued tokens, "
+            "re-encodings, concatenations, splices, sessions sealed under "
+            "wrong keys, ~150 admin-token variants, junk up to 200 kB, "
+            "Basic/Bearer confusion, a nonce-reuse forgery attempt across "
+            "restarts; login matrix over ~25 configured names in case/"
+            "whitespace/NFKC families x password variants. A case is "
+            "distinct and non-trivial = a (mutation class or login kind, "
+            "provider chain, transport/peer) cell that was judged."
+        ),
+        "assumptions": [
+            "executions are produced by the harness' seeded generators; "
+            "real daemon (start_krill_daemon, feature verif-hooks) on a data "
+            "directory populated in-process; OpenID Connect not exercised",
+            "password hashes are those `krillc config user` would print; "
+            "passwords are compared modulo trim+NFKC, as krillc hashes them",
+            "a spelling that decodes to the bytes of an issued token, or "
+            "differs only in keyword case/blanks, is the same credential: it "
+            "may be served as that identity or refused; krill takes none",
+            "identity served is observed through 7 roles with pairwise "
+            "different rights on 5 probe requests plus the actor in the "
+            "command history; 400/431 from hyper count as refused",
+        ],
+        "level_text": (
+            "Runtime monitoring: the real daemon answers mutated credentials "
+            "under every provider chain on both transports and as two socket "
+            "peers; an independent model of who a credential is says which "
+            "identity may be served; logins are judged against the "
+            "configured users; refused changes must leave no trace."
+        ),
+        "level_note": (
+            "Trusted: the harness' HTTP client, the hand-written role model "
+            "and NFKC table, per-thread setresuid for the nobody peer."
+        ),
+        "technique": "runtime monitoring: real daemon x provider chains x "
+                     "credential mutation, identity-fingerprint and "
+                     "audit-actor oracle, login matrix, nonce-reuse forgery",
+        "design_ref": "DESIGN.md section 6, C20",
+    },
 }
